@@ -418,13 +418,14 @@ func (c *Ctx) decodeRejections(rule string) {
 		return false
 	}
 	n := 0
-	allInstrs(d, func(in ssa.Instruction) {
+	hdrs := map[*ssa.Function]map[*ssa.BasicBlock]bool{}
+	c.P.coneInstrs(d, func(in ssa.Instruction) {
 		if !isDecode(in) {
 			return
 		}
 		n++
 		call := in.(*ssa.Call)
-		construct := fmt.Sprintf("%s: failure of a parameter decode", fname(d))
+		construct := fmt.Sprintf("%s: failure of a parameter decode", fname(in.Parent()))
 		// error value
 		var e ssa.Value = call
 		if tup, ok := call.Type().(*types.Tuple); ok {
@@ -440,11 +441,14 @@ func (c *Ctx) decodeRejections(rule string) {
 			return
 		}
 		// tested at once: from the decode, no other decode / user call / loop back-edge before an error test
-		headers := loopHeaders(d)
 		target := func(x ssa.Instruction) bool {
-			return x != in && (isDecode(x) || c.isUserCall(x) || (headers[x.Block()] && x == x.Block().Instrs[0]))
+			f := x.Parent()
+			if hdrs[f] == nil {
+				hdrs[f] = loopHeaders(f)
+			}
+			return x != in && (isDecode(x) || c.isUserCall(x) || (hdrs[f][x.Block()] && x == x.Block().Instrs[0]))
 		}
-		if w := reachFrom(in, target, isErrTest); w != nil {
+		if w := reachFromUp(in, target, isErrTest); w != nil {
 			c.bad(rule, construct, c.ipos(w), fmt.Sprintf("the decode at %s is not followed by a test of its error before the next decode / the handler", c.ipos(in)))
 			return
 		}
@@ -470,7 +474,7 @@ func (c *Ctx) decodeRejections(rule string) {
 			return
 		}
 		tgt2 := func(x ssa.Instruction) bool { return isDecode(x) || c.isUserCall(x) }
-		if w := reachFromBlock(failBranch, tgt2, isErrTest); w != nil {
+		if w := reachFromBlockUp(failBranch, tgt2, isErrTest); w != nil {
 			c.bad(rule, construct, c.ipos(w), fmt.Sprintf("after the decode at %s failed, decoding continues / the handler is reached without another error test: a later successful decode can mask the failure and the handler runs with a zero value", c.ipos(in)))
 			return
 		}
@@ -599,3 +603,4 @@ func decodedInto(newCall *ssa.Call) bool {
 	walk(newCall, 0)
 	return found
 }
+
